@@ -395,9 +395,11 @@ class Judge(object):
             return 'harness'
         st, res = self.raw(src, fold)
         if st == 'parse-error':
-            herr.append('catalogue program %r rejected by the parser: %s'
-                        % (src, res))
-            return 'harness'
+            # every catalogue program is a JSON literal bound by var or
+            # assignment, hence ES5: no tree means no dictionary
+            bag.add('C19|program-rejected-by-the-parser|top=%s|%s' % (
+                spec[0], ctx), witness, repr(res)[:200])
+            return 'parse-error'
         if st == 'raises':
             name = type(res).__name__
             who = 'structure:' + shape(spec)
